@@ -3,6 +3,16 @@
 From Coq Require Import List Arith.
 Import ListNotations.
 
+(* hypotheses on the neighbourhood function of n points: indices in range, symmetric as sets *)
+Definition nb_in_range (nb : nat -> list nat) (n : nat) : Prop :=
+  forall i j, i < n -> In j (nb i) -> j < n.
+Definition nb_symmetric (nb : nat -> list nat) (n : nat) : Prop :=
+  forall i j, i < n -> In j (nb i) -> In i (nb j).
+(* two search backends returning the same points, each listed once, in any order *)
+Definition nb_same_sets (nb1 nb2 : nat -> list nat) (n : nat) : Prop :=
+  (forall i j, i < n -> (In j (nb1 i) <-> In j (nb2 i))) /\
+  (forall i, i < n -> NoDup (nb1 i)) /\ (forall i, i < n -> NoDup (nb2 i)).
+
 Section Spec.
   Variable nb : nat -> list nat.
   Variable minpts : nat.
